@@ -179,3 +179,71 @@ Theorem C06_errs_one :
     errs_of_inputs cf [(fname, evs)] 0 = snd (fst (ctxs_of_input cf fname evs)).
 Proof. exact errs_of_inputs_one. Qed.
 Print Assumptions C06_errs_one.
+
+(* several inputs: --on-error=panic over ANY list of inputs *)
+From Jawk Require Import Base F64 Json Reader JsonParser Ctx Printer Fn Expr Chain ExprParser Go GoProofs ChainProofs LocalityProofs FilesProofs PolicyFilesProofs PanicFilesProofs.
+
+(* panic over any list of inputs, a pipeline that never stops the reader: the run fails at the first malformed region of any input having written exactly the rows of the values before it (no completion), and succeeds with the rows of the chain when there is none *)
+Theorem C06_policy_panic_files :
+  forall (cf : cfg) (ins : list (option str * list ev)) (b : bool) (p : printer)
+      (sts : list stage) (hdr : list byte),
+    c_on_error cf = OnPanic ->
+    Forall (fun i : option str * list ev => Forall (fun e : ev => e <> EErr) (snd i)) ins ->
+    build_pipeline cf = Some (p, sts) ->
+    start_output p (titles expr sts []) (c_rowsep cf) = Some hdr ->
+    (forall (ss : list sstate) (c : ctx), snd (process expr get sts ss c) = Continue) ->
+    let cs := fst (ctxs_until_error cf ins 0) in
+    if snd (ctxs_until_error cf ins 0)
+    then
+     g_result (go cf ins b) = GErrJson /\
+     g_events (go cf ins b) =
+     match hdr with
+     | [] => []
+     | _ :: _ => [OOut hdr]
+     end ++
+     emit cf p (length (titles expr sts []))
+       (snd (fst (feed expr get sts cs (map (init_state expr) sts))))
+    else
+     g_result (go cf ins b) = GOk /\
+     g_events (go cf ins b) =
+     match hdr with
+     | [] => []
+     | _ :: _ => [OOut hdr]
+     end ++ emit cf p (length (titles expr sts [])) (run expr get sts (map (init_state expr) sts) cs).
+Proof. exact go_files_panic. Qed.
+Print Assumptions C06_policy_panic_files.
+
+(* the values handed to the pipeline before the failure are a prefix of those the other policies hand to it *)
+Theorem C06_panic_prefix_files :
+  forall (cf : cfg) (ins : list (option str * list ev)) (idx : N),
+    exists tl : list ctx, fst (ctxs_of_inputs cf ins idx) = fst (ctxs_until_error cf ins idx) ++ tl.
+Proof. exact ctxs_until_error_prefix. Qed.
+Print Assumptions C06_panic_prefix_files.
+
+(* the run fails whenever some input has a malformed region *)
+Theorem C06_panic_hit_files :
+  forall (cf : cfg) (ins : list (option str * list ev)) (idx : N),
+    (0 < errs_of_inputs cf ins idx)%N -> snd (ctxs_until_error cf ins idx) = true.
+Proof. exact ctxs_until_error_hit. Qed.
+Print Assumptions C06_panic_hit_files.
+
+(* without a malformed region panic behaves as ignore *)
+Theorem C06_panic_clean_files :
+  forall (cf : cfg) (ins : list (option str * list ev)) (b : bool) (p : printer)
+      (sts : list stage) (hdr : list byte),
+    c_on_error cf = OnPanic ->
+    Forall (fun i : option str * list ev => Forall (fun e : ev => e <> EErr) (snd i)) ins ->
+    build_pipeline cf = Some (p, sts) ->
+    start_output p (titles expr sts []) (c_rowsep cf) = Some hdr ->
+    (forall (ss : list sstate) (c : ctx), snd (process expr get sts ss c) = Continue) ->
+    snd (ctxs_until_error cf ins 0) = false ->
+    g_result (go cf ins b) = GOk /\
+    g_events (go cf ins b) =
+    match hdr with
+    | [] => []
+    | _ :: _ => [OOut hdr]
+    end ++
+    emit cf p (length (titles expr sts []))
+      (run expr get sts (map (init_state expr) sts) (fst (ctxs_of_inputs cf ins 0))).
+Proof. exact go_files_panic_clean. Qed.
+Print Assumptions C06_panic_clean_files.
